@@ -32,8 +32,10 @@ Theorem C18_peer_monitor : forall par oracle ops,
   peer_spec_ok par (snd (prun par oracle p_init ops)) = true.
 Proof. exact peer_monitor_ok. Qed.
 
-(* ... which means: once Done() has answered true, or an external Terminate() has returned, no
-   callback is made any more (no Done, IsProcessed, Suspend, RequestChunks); every RequestChunks
+(* ... which means: once Done() has answered true, or - from the next routine run on - once an
+   external Terminate() has returned, no callback is made any more (no Done, IsProcessed,
+   Suspend, RequestChunks; PTerminate is atomic between routine runs in the model, in Go a
+   routine() that already passed the d.done guard still finishes); every RequestChunks
    keeps requested <= processed + parallel and is not issued in a suspended run. *)
 Theorem C18_peer_safe : forall par oracle ops, peer_safe par (snd (prun par oracle p_init ops)).
 Proof. exact peer_safe_all. Qed.
